@@ -76,11 +76,12 @@ func runC20(t *testing.T, c *tmCase) (out tmOutcome) {
 		cands := []cand{{cfgResend, time.Duration(math.MinInt64 / 2)}}
 		base := cfgResend // base of the first candidate, used to size clock advances
 		var (
-			samples        = map[int]time.Duration{}          // seq -> send time of a never-retransmitted packet
-			synSample      = time.Duration(-1)
-			wasResent      = map[int]bool{}
-			prevResend     = m.GetResendTimeout()
-			prevHS         = m.GetHandshakeTimeout()
+			samples       = map[int]time.Duration{} // seq -> send time of a never-retransmitted packet
+			synSample     = time.Duration(-1)
+			wasResent     = map[int]bool{}
+			sampledBefore bool
+			prevResend    = m.GetResendTimeout()
+			prevHS        = m.GetHandshakeTimeout()
 		)
 		if prevResend != cfgResend {
 			out.violation = fmt.Sprintf("initial resend timeout %v, configured %v", prevResend, cfgResend)
@@ -95,10 +96,12 @@ func runC20(t *testing.T, c *tmCase) (out tmOutcome) {
 				out.violation = fmt.Sprintf("event #%d %+v at t=%v: %s", i, ev, now(), fmt.Sprintf(f, a...))
 			}
 			var (
-				mayRecompute bool
-				sample       time.Duration = -1
-				mayBoost     bool
-				mayBoostHS   bool
+				mayRecompute  bool
+				mustRecompute bool
+				mustWhy       string
+				sample        time.Duration = -1
+				mayBoost      bool
+				mayBoostHS    bool
 			)
 			switch ev.Op {
 			case "adv":
@@ -150,12 +153,19 @@ func runC20(t *testing.T, c *tmCase) (out tmOutcome) {
 				}
 				if synSample >= 0 {
 					mayRecompute, sample = true, synSample
+					mustRecompute, mustWhy = true, "response to a SYN that was not retransmitted"
 					synSample = -1
 				}
 			case "recv_ack":
 				m.Received(&gbn.PacketACK{Seq: uint8(ev.Seq)})
 				if st, ok := samples[ev.Seq]; ok {
 					mayRecompute, sample = true, st
+					switch {
+					case !sampledBefore:
+						mustRecompute, mustWhy = true, "first round-trip sample of the connection"
+					case c.Freq == 1:
+						mustRecompute, mustWhy = true, "update frequency 1: every sample is taken"
+					}
 					delete(samples, ev.Seq)
 					if wasResent[ev.Seq] {
 						out.reuse = true
@@ -258,9 +268,25 @@ func runC20(t *testing.T, c *tmCase) (out tmOutcome) {
 				if want < time.Second {
 					want = time.Second
 				}
-				if closeEnough(cur, want) && len(cands) < 16 {
+				if mustRecompute && !closeEnough(cur, want) {
+					// I3 for the samples that are certainly taken: the
+					// handshake sample, the first sample ever and, with an
+					// update frequency of one, every sample. The boost must
+					// be gone even if the measured value equals the base
+					// already in force.
+					fail("resend timeout stayed at %v although a fresh sample was taken (%s); the sample gives max(%d x %v, 1s) = %v with all boost removed",
+						cur, mustWhy, mult, now()-sample, want)
+					return
+				}
+				if mustRecompute {
+					cands = []cand{{cur, now()}}
+					out.updates++
+				} else if closeEnough(cur, want) && len(cands) < 16 {
 					cands = append(cands, cand{cur, now()})
 				}
+			}
+			if mayRecompute {
+				sampledBefore = true
 			}
 			base = cands[0].base
 			prevResend = cur
